@@ -20,6 +20,8 @@ def cfg_kwargs(cfg):
         kw['udf'] = '2.60'
     if cfg.get('xa'):
         kw['xa'] = True
+    if cfg.get('vdp'):
+        kw.update(cfg['vdp'])        # non-default volume descriptor parameters of new()
     return kw
 
 
@@ -33,6 +35,8 @@ def cfg_name(cfg):
         s += '+UDF'
     if cfg.get('xa'):
         s += '+XA'
+    if cfg.get('vdp'):
+        s += '+vdp'
     return s
 
 
